@@ -375,4 +375,7 @@ def run(ctx):
             if fs != "default":
                 r.rule += "@" + fs
         out += res
+    if ctx.tier == "thorough":
+        from vlib import witness
+        out.append(witness.rule("C16", ['OptionalNeedsOption', 'OptionalNullableNeedsOption', 'UnknownKeysRejected', 'IncompatibleCombinationsRejected', 'UnsupportedItemRejected', 'UnusualIdentifiersExpand'], "C16.R6"))
     return out
